@@ -70,8 +70,13 @@ func Project(doc, projection bsonkit.Doc) (bsonkit.Doc, error) {
 		// set null document
 		res = &bson.D{}
 
-		// copy id
-		_, err := bsonkit.Put(res, "_id", bsonkit.Get(doc, "_id"), false)
+		// copy id (a private copy: the result must not share memory with
+		// the document, see cloneProjected)
+		id, err := cloneProjected(bsonkit.Get(doc, "_id"))
+		if err != nil {
+			return nil, err
+		}
+		_, err = bsonkit.Put(res, "_id", id, false)
 		if err != nil {
 			return nil, err
 		}
@@ -86,6 +91,10 @@ func Project(doc, projection bsonkit.Doc) (bsonkit.Doc, error) {
 			}
 			value := bsonkit.Get(doc, path)
 			if value != bsonkit.Missing {
+				value, err = cloneProjected(value)
+				if err != nil {
+					return nil, err
+				}
 				_, err = bsonkit.Put(res, path, value, false)
 				if err != nil {
 					return nil, err
@@ -105,7 +114,11 @@ func Project(doc, projection bsonkit.Doc) (bsonkit.Doc, error) {
 
 	// merge fields (overlays from operator expressions)
 	for path, value := range state.merge {
-		_, err := bsonkit.Put(res, path, value, false)
+		value, err := cloneProjected(value)
+		if err != nil {
+			return nil, err
+		}
+		_, err = bsonkit.Put(res, path, value, false)
 		if err != nil {
 			return nil, err
 		}
@@ -117,6 +130,18 @@ func Project(doc, projection bsonkit.Doc) (bsonkit.Doc, error) {
 	}
 
 	return res, nil
+}
+
+// cloneProjected returns a private deep copy of a value taken from the
+// document being projected. Get returns the stored bson.D and bson.A values
+// themselves and the $slice results are sub-slices of stored arrays; putting
+// them into the result as they are lets a later Put on the result (the merge
+// step, with colliding or nested paths) write into the stored document.
+func cloneProjected(v interface{}) (interface{}, error) {
+	if v == bsonkit.Missing {
+		return v, nil
+	}
+	return bsonkit.ConvertValue(v)
 }
 
 func projectCondition(ctx Context, _ bsonkit.Doc, _, path string, v interface{}) error {
